@@ -17,7 +17,7 @@ func init() {
 		Rule:   "E1: for every year in the year set, NewSolar on month -1..14 x day -1..33 (+ hour/minute/second edge values on one valid and one invalid day per month) against R1 validity; NewLunar/NewLunarTime/NewTao/NewFoto on month -12..13 x day 0..31 against the image set of the civil sweep of the neighbouring civil years; E2: breadth-first search over chains of stepping/conversion calls from seed dates, de-duplicated on (type,y,m,d,h,mi,s), validity invariant on every produced object. non-trivial = argument tuples within one unit of a validity boundary, and BFS transitions that change the month",
 		Assume: []string{"R1 validity predicate", "lunar image set is taken from Solar.GetLunar over every civil day of years Y-1..Y+1 (that this map is a bijection is C01's job)"},
 		Shards: func(tier string, seed int64) []Shard {
-			sh := yearShards(tier, seed, 9998, "box")
+			sh := yearShardsWith(tier, seed, 9998, "box", []int{1901, 1969, 1970, 2001, 2038}) // years of the special time.Time values
 			sh = append(sh, Shard{Kind: "chains", Tier: tier, Seed: seed})
 			return sh
 		},
@@ -75,6 +75,47 @@ func c07Year(w *W, y int) {
 			}
 		}
 	}
+	// ---- the time box on the lunar / Taoist / Buddhist / hour-object constructors: an existing triple with a time of day
+	// outside 0..23 / 0..59 / 0..59 either panics or (never, today) yields an object whose own time fields are in range
+	for _, md := range [][2]int{{1, 1}, {6, 15}, {12, 29}} {
+		for _, h := range []int{-1, 0, 10, 23, 24} {
+			for _, mi := range []int{-1, 0, 59, 60} {
+				for _, sc := range []int{-1, 0, 59, 60, 86399} {
+					inRange := h >= 0 && h <= 23 && mi >= 0 && mi <= 59 && sc >= 0 && sc <= 59
+					ctors := map[string]func() (int, int, int, string){
+						"NewLunar": func() (int, int, int, string) {
+							l := calendar.NewLunar(y, md[0], md[1], h, mi, sc)
+							return l.GetHour(), l.GetMinute(), l.GetSecond(), l.GetSolar().ToYmdHms()
+						},
+						"NewTao": func() (int, int, int, string) {
+							l := calendar.NewTao(y+2697, md[0], md[1], h, mi, sc).GetLunar()
+							return l.GetHour(), l.GetMinute(), l.GetSecond(), l.GetSolar().ToYmdHms()
+						},
+						"NewFoto": func() (int, int, int, string) {
+							l := calendar.NewFoto(y+544, md[0], md[1], h, mi, sc).GetLunar()
+							return l.GetHour(), l.GetMinute(), l.GetSecond(), l.GetSolar().ToYmdHms()
+						},
+						"NewLunarTime": func() (int, int, int, string) {
+							calendar.NewLunarTime(y, md[0], md[1], h, mi, sc)
+							return h, mi, sc, ""
+						},
+					}
+					for name, f := range ctors {
+						var gh, gm, gs int
+						var sol string
+						_, p := try(func() { gh, gm, gs, sol = f() })
+						w.R.Evals++
+						if inRange && p && md[1] != 29 && y > 1 && !inReform(y) {
+							w.Viol(fmt.Sprintf("C07:%s:time-rejected:%d", name, y), fmt.Sprintf("%s(%d,%d,%d,%d,%d,%d) rejected although the triple exists and the time is in range", name, y, md[0], md[1], h, mi, sc), y)
+						}
+						if !inRange && !p && (gh < 0 || gh > 23 || gm < 0 || gm > 59 || gs < 0 || gs > 59) {
+							w.Viol(fmt.Sprintf("C07:%s:time-accepted:%d", name, y), fmt.Sprintf("%s(%d,%d,%d,%d,%d,%d) is accepted and yields an object with time fields %d:%d:%d (its civil moment prints %s)", name, y, md[0], md[1], h, mi, sc, gh, gm, gs, sol), y)
+						}
+					}
+				}
+			}
+		}
+	}
 	// ---- time.Time entry points: same acceptance and same fields as the integer constructors
 	for m := 1; m <= 12; m++ {
 		for _, d := range []int{1, 4, 5, 10, 14, 15, 28, 29, 30, 31} {
@@ -107,6 +148,32 @@ func c07Year(w *W, y int) {
 					w.Viol(fmt.Sprintf("C07:FromDate-units:%04d-%02d-%02d", y, m, d), "a ...FromDate constructor of week/month/season/half-year/year carries other fields than the time.Time", []int{y, m, d})
 				}
 			}
+		}
+	}
+	// ---- time.Time values that programs treat specially (the zero Time, the Unix epoch and other round instants, in
+	// several zones): the ...FromDate constructors take their wall-clock fields like any other value
+	if y == 1 || y == 1901 || y == 1969 || y == 1970 || y == 2000 || y == 2001 || y == 2038 {
+		specials := []time.Time{{}, time.Unix(0, 0), time.Unix(0, 0).UTC(), time.Unix(0, 0).In(tzOf(1)), time.Unix(0, 0).In(tzOf(2)), time.Unix(0, 1), time.Unix(-1, 0).UTC(), time.Unix(1, 0).UTC(),
+			time.Unix(1<<31-1, 0).UTC(), time.Unix(1<<31, 0).UTC(), time.Unix(-1<<31, 0).UTC(), time.Unix(946684800, 0).UTC(), time.Unix(946684800, 0).In(tzOf(1)), time.Unix(1e9, 0).UTC(), time.Unix(-2208988800, 0).UTC()}
+		for _, t := range specials {
+			ty, tm, td, th, tmi, ts := t.Year(), int(t.Month()), t.Day(), t.Hour(), t.Minute(), t.Second()
+			if ty != y || !r1Valid(ty, tm, td) {
+				continue
+			}
+			if msg, p := try(func() {
+				s := calendar.NewSolarFromDate(t)
+				l := calendar.NewLunarFromDate(t)
+				ref := calendar.NewSolar(ty, tm, td, th, tmi, ts)
+				if !solarEq(s, ty, tm, td, th, tmi, ts) || fieldDigest(l) != fieldDigest(ref.GetLunar()) || pillarSig(l) != pillarSig(ref.GetLunar()) ||
+					calendar.NewSolarWeekFromDate(t, 1).GetFirstDay().ToYmd() != calendar.NewSolarWeekFromYmd(ty, tm, td, 1).GetFirstDay().ToYmd() ||
+					calendar.NewSolarMonthFromDate(t).GetMonth() != tm || calendar.NewSolarYearFromDate(t).GetYear() != ty || calendar.NewSolarSeasonFromDate(t).GetMonth() != tm || calendar.NewSolarHalfYearFromDate(t).GetMonth() != tm {
+					w.Viol("C07:FromDate:special:"+t.Format("2006-01-02T15:04:05.000000000Z07:00"), fmt.Sprintf("a ...FromDate constructor treats the time.Time %s specially: NewSolarFromDate = %s, NewLunarFromDate = %s (%s); its wall-clock fields give %s", t.Format("2006-01-02 15:04:05.000000000 -07:00"), s.ToYmdHms(), lunarYmd(l), l.GetSolar().ToYmdHms(), ref.ToYmdHms()), t.String())
+				}
+			}); p {
+				w.Viol("C07:FromDate:special:panic:"+t.Format("2006-01-02T15:04:05Z07:00"), msg, t.String())
+			}
+			w.R.Evals++
+			w.R.Nontrivial++
 		}
 	}
 	// ---- lunar image set of lunar year y from the civil sweep
